@@ -1,5 +1,5 @@
 (** C13 — Will messages are published exactly when a session dies without DISCONNECT. *)
-From Wasp Require Import Model.Base Spec.MatchSpec Model.DState Model.IdPool Model.Mount Model.Node Proofs.BaseFacts Proofs.MountFacts Proofs.NodeFacts.
+From Wasp Require Import Model.Base Spec.MatchSpec Model.DState Model.IdPool Model.Mount Model.Node Proofs.BaseFacts Proofs.MountFacts Proofs.NodeFacts Proofs.WillFacts.
 From stdpp Require Import list strings.
 Open Scope Z_scope.
 
@@ -18,6 +18,29 @@ Print Assumptions no_will_after_disconnect.
 Theorem no_will_without_lwt : ∀ cl i s d clk, ss_lwt s = None → (shutdown cl i s d clk).2 = [Closed (ss_conn s)].
 Proof. exact no_will_without_lwt. Qed.
 Print Assumptions no_will_without_lwt.
+
+(** "... each matching subscriber receives it exactly once".  The publish path stores the will at
+    most once per node; when nothing fails, at every node hosting a matching subscription known
+    here, and at no other node.  (Each hosting node then writes a stored message once per matching
+    subscription entry of its registered sessions: C01's [by_pattern_once], [deliver_exact].) *)
+Theorem will_stored_once_per_destination : ∀ cl i s w clk, ss_lwt s = Some w → mine_of (after_unsub cl i s clk) s ≠ Some false →
+  ∃ cl1 o, (shutdown cl i s false clk).2 = Closed (ss_conn s) :: o ∧
+    quiet (λ x, negb (is_store x)) o ∧
+    (existsb bad_store o = false → ∀ dst, dst ∈ dests_of cl1 i (will_msg s w) → existsb (stored_at (Z.to_nat (dst - 1)) (will_msg s w)) o = true) ∧
+    (Forall (λ d : Z, 1 ≤ d) (dests_of cl1 i (will_msg s w)) → ∀ j, (napp j o ≤ 1)%nat) ∧
+    (∀ j, (∀ dst, dst ∈ dests_of cl1 i (will_msg s w) → Z.to_nat (dst - 1) ≠ j) → napp j o = 0%nat).
+Proof. exact will_distributed. Qed.
+Print Assumptions will_stored_once_per_destination.
+
+(** failure of the hosting node: the survivor that notices appends to its own log exactly one
+    copy of the will of every session of the failed peer it lists, under that session's mount
+    point, and nothing else *)
+Theorem host_failure_publishes_wills : ∀ cl o d clk, (o < length (cl_nodes cl))%nat → n_fail (getn cl o) = 0%nat →
+  let pid := Z.of_nat (S d) in
+  let n1 := mutate (getn cl o) (sub_delete_peer (n_d (getn cl o)) pid clk) in
+  (peer_leave cl o d clk).2 = map (λ w, Appended o (l_topic w) (l_payload w) (l_qos w) (l_retain w)) (peer_wills n1 pid).
+Proof. exact host_failure_wills. Qed.
+Print Assumptions host_failure_publishes_wills.
 
 (** host failure: each survivor appends to its own log one copy of the will of every listed
     session of the failed peer, under that session's mount point (non-vacuity example; the
